@@ -27,6 +27,7 @@ type Outcome struct {
 	ResultNil bool     // Convert returned a nil value
 	World     *World
 	Redef     *RedefObs
+	Conv      *ConvObs
 }
 
 // Class is the coarse outcome class used for stability (C05).
@@ -56,6 +57,9 @@ func (o Outcome) Key() string {
 	k := fmt.Sprintf("%s|%s|%s|%s|%v|%s", o.Class(), firstLine(o.Panic), e, o.Log.String(), o.Results, unsatKey(o.Unsat))
 	if o.Redef != nil {
 		k += fmt.Sprintf("|redef:%v|%v|%d|%s", o.Redef.RedefErr != nil, o.Redef.Inputs, o.Redef.RanDuring, o.Redef.DirectKey)
+	}
+	if o.Conv != nil {
+		k += fmt.Sprintf("|conv:%v|%s|%v|%s|%s", o.Conv.ConvErr != nil, o.Conv.ConvTerm, o.Conv.CallErr != nil, o.Conv.CallTerm, invString(o.Conv.CallLog))
 	}
 	return k
 }
